@@ -346,9 +346,16 @@ func (g *Gen) genCops(depth, n int) []Cop {
 func (g *Gen) GenCopsPublic(depth, n int) []Cop { return g.genCops(depth, n) }
 
 func (g *Gen) GenCase(depth int) *Case {
-	r := g.R
 	g.S = g.GenSettings()
-	g.Now = genTime(r)
+	g.Now = genTime(g.R)
+	return g.genCaseBody(depth)
+}
+
+// GenInner: a program under the settings and clock g already has (the event a "log" op starts, nested.go)
+func (g *Gen) GenInner(depth int) *Case { return g.genCaseBody(depth) }
+
+func (g *Gen) genCaseBody(depth int) *Case {
+	r := g.R
 	c := &Case{S: g.S, Now: g.Now}
 	ns := 0
 	switch r.Intn(6) {
